@@ -292,7 +292,9 @@ def hook_auth_status(L, sym):
                 t = status_test(others[0])
                 if t is None or not (t[0] == resp or (t[0][0] == 'exception' and t[0][1] == guards[0][1])):
                     return None
-                if not any(x[0] == 'meth' and x[1] == resp and x[2] == 'raise_for_status' and not g for g, x in trace):
+                # … raised by `<response>.raise_for_status()`, called for every answer (or for every answer outside 2xx)
+                not_success = L.neg(('truthy', ('attr', resp, 'is_success')))
+                if not any(x[0] == 'meth' and x[1] == resp and x[2] == 'raise_for_status' and all(c == not_success for c in g) for g, x in trace):
                     return None
                 found.add(t[1])
         return next(iter(found)) if len(found) == 1 else None
